@@ -23,7 +23,7 @@ MANIFEST = dict(
     ref="5.5, 6 C15")
 
 KINDS = ["beginstring", "first_field", "len_nondigit_first", "len_nondigit_later", "len_zero", "len_too_big", "len_wraps_u32",
-         "len_many_digits", "no_equals"]
+         "len_wraps_u64", "len_wraps_u128", "len_many_digits", "no_equals"]
 
 
 def h31(b):
@@ -44,7 +44,8 @@ def corrupt(wire, kind):
     if kind == "first_field":
         return ("7" + s[1:]).encode("latin-1")
     rep = {"len_nondigit_first": "x" + ln[1:] if len(ln) > 1 else "x", "len_nondigit_later": ln[0] + "x" + ln[2:] if len(ln) > 2 else ln + "x",
-           "len_zero": "0", "len_too_big": "9000", "len_wraps_u32": str(4294967296 + int(ln)), "len_many_digits": "1" * 2100}
+           "len_zero": "0", "len_too_big": "9000", "len_wraps_u32": str(4294967296 + int(ln)), "len_wraps_u64": str(2 ** 64 + int(ln)),
+           "len_wraps_u128": str(2 ** 128 + int(ln)), "len_many_digits": "1" * 2100}
     if kind in rep:
         return (s[:i9 + 2] + rep[kind] + s[e9:]).encode("latin-1")
     if kind == "no_equals":
@@ -176,7 +177,7 @@ def run(ctx):
         for c in sizes:
             ex.cmds.append("feed " + data[off:off + c].hex())
             off += c
-        ex.cmds.append("frames")
+        ex.cmds.append("frames %d %d" % (len(ws) if not firstbad else firstbad - 1, 1 if firstbad else 0))
         ex.abstract = [("stream", tuple(len(w) for w in ws), firstbad, kind, tuple(sizes) if len(sizes) < 40 else (len(sizes), "chunks"))]
         ex.meta = {"sent": [{"len": len(w), "h": h31(w)} for w in ws], "firstbad": firstbad, "kind": kind or "none"}
         execs.append(ex)
